@@ -32,6 +32,10 @@ Shadowing(d, visible) ==
      (ps \cap visible # {}) \/ \E i \in 3..Len(d.list) : Shadowing(d.list[i], visible \cup ps)
   ELSE \E i \in 1..Len(d.list) : Shadowing(d.list[i], visible)
 
+\* a symbol without its trailing decimal digits
+RECURSIVE Stem(_)
+Stem(s) == IF Len(s) > 0 /\ IsDigit(s[Len(s)]) THEN Stem(SubSeq(s, 1, Len(s) - 1)) ELSE s
+
 ScopeKinds(letstar) ==
   IF ~(HeadIs(letstar, nLetStar) /\ Len(letstar.list) >= 3 /\ IsList(letstar.list[2])) THEN <<"not-a-let*">>
   ELSE LET bs == letstar.list[2].list
@@ -46,4 +50,11 @@ ScopeKinds(letstar) ==
                       THEN <<"use-before-binding">> ELSE <<>>)
                   \o (IF (\E i \in 1..Len(bs) : Shadowing(bs[i].list[2], nameSet)) \/ (\E i \in 1..Len(body) : Shadowing(body[i], nameSet))
                       THEN <<"captured-by-lambda">> ELSE <<>>)
+                  \* a free name that is bound NOWHERE but differs from a bound name only in its trailing number is a
+                  \* generated name whose binding is missing (seed C11-i: used as ...:30, bound as ...:31); a free name of
+                  \* any other shape is a primitive of the runtime, not judged here
+                  \o (LET stems == {Stem(n) : n \in {m \in nameSet : Stem(m) # m}}
+                          free == UNION ({FreeSyms(bs[i].list[2], {}) : i \in 1..Len(bs)} \cup {FreeSyms(body[i], {}) : i \in 1..Len(body)})
+                      IN IF \E s \in free : s \notin nameSet /\ Stem(s) # s /\ Stem(s) \in stems
+                         THEN <<"use-without-binding">> ELSE <<>>)
 =============================================================================
